@@ -2,6 +2,7 @@ package main
 
 import (
 	"bytes"
+	"runtime"
 	"errors"
 	"fmt"
 	"os"
@@ -205,6 +206,8 @@ func runSnapfail(rep *Report, replay string) {
 			reps = 3
 		}
 		fd0 := countFds()
+		runtime.GC()
+		gor0 := runtime.NumGoroutine()
 		for round := 0; round < reps && !stuck; round++ {
 			for _, f := range faults {
 				rep.Cases++
@@ -317,6 +320,12 @@ func runSnapfail(rep *Report, replay string) {
 		}
 		lines = append(lines, "snapres 1 0 0 0")
 		want = append(want, fmt.Sprintf("rec=%v dfd=%d dtemp=%d err=%v", true, 0, 0, inner != nil))
+		// goroutines: a snapshot that leaves a running goroutine (and its buffers) behind every time exhausts the
+		// process after some thousands of snapshots — "the collection keeps working" does not survive that
+		time.Sleep(20 * time.Millisecond)
+		if gor1 := runtime.NumGoroutine(); gor1-gor0 > 24 {
+			addV(fmt.Sprintf("[%s] %d snapshots left %d goroutines behind (%d before, %d after): every Snapshot leaves something running", shapes[si], len(faults)*reps, gor1-gor0, gor0, gor1), nil)
+		}
 		if fd1 := countFds(); fd1 != fd0 {
 			addV(fmt.Sprintf("[%s] %d snapshots changed the number of open descriptors from %d to %d", shapes[si], len(faults)*reps, fd0, fd1), nil)
 		}
